@@ -192,6 +192,7 @@ func CheckC01(e *Env) int {
 	progs := genPool(e, "a", e.tierN(160, 1600), nil)
 	progs = append(progs, resultKindMatrix(e)...)
 	progs = append(progs, crossPkgAccessProgs(e)...)
+	progs = append(progs, injectorTemplateForms()...)
 	results := RunPool(e, progs, PoolOpts{Execute: true, Name: "c01"})
 	for _, pr := range results {
 		EvalAccepted(pr)
